@@ -553,40 +553,61 @@ def find_class_node(mod, name):
     fail(f"class {name} not found")
 
 
+GLUE_ALWAYS = [("OIfNotFlag", [("OSetFlag",)]), ("OIfNotAlive", "Mon", [("OSpawn", "Mon")]),
+               ("OIfNotAlive", "Sub", [("OSpawn", "Sub")])]
+GLUE_EARLY = [("OIfNotFlag", [("OSetFlag",), ("OIfNotAlive", "Mon", [("OSpawn", "Mon")]),
+                              ("OIfNotAlive", "Sub", [("OSpawn", "Sub")])])]
+
+
 def translate(sources: dict | None = None, pins="file"):
-    """Returns (coq_text, info). info[key] = {'variant', 'lines', 'file', 'locked', ...}."""
+    """Returns (coq_text, info). coq_text = coq/Gen/C10Gen.v (definitions extracted from the source);
+    info['_tie_text'] = coq/Gen/C10Tie.v (tie lemmas; kept apart so that the correspondence can still run
+    against what the code says when a tie breaks). info[key] = {'variant', 'lines', 'file', 'locked', ...}."""
     if pins == "file":
         pins = json.loads(PINS_FILE.read_text()) if PINS_FILE.exists() else {}
     Ex.newpins = {}
     info = {}
-    out = ["(* Generated by translate/tr_monitor.py from redun/executors/{docker,aws_batch,k8s,gcp_batch,aws_glue}.py"
-           " - do not edit. *)",
-           "From Coq Require Import List Bool.", "From RV Require Import Model.Monitor.",
+    head = ["(* Generated by translate/tr_monitor.py from redun/executors/{docker,aws_batch,k8s,gcp_batch,aws_glue}.py"
+            " and redun/job_array.py - do not edit. *)",
+            "From Coq Require Import List Bool.",
+            "From RV Require Import Model.Monitor Model.ArrCounter Model.ArrLife Model.GlueWaves.",
+            "Import ListNotations.", ""]
+    out = list(head)
+    tie = [head[0], "From Coq Require Import List Bool.",
+           "From RV Require Import Model.Monitor Model.ArrCounter Model.ArrLife Model.GlueWaves Gen.C10Gen.",
            "Import ListNotations.", ""]
     for key in SPECS:
         e = Ex(key, (sources or {}).get(key)).run(pins)
         variant = "fixed" if e.locked else "shipped"
         out.append(f"Definition gen_{key} : cfg := {cq_cfg(e)}.")
         target = "fixed_cfg" if e.locked else f"shipped_{key}"
-        out.append(f"Lemma C10_tie_{key} : gen_{key} = {target}.")
-        out.append("Proof. reflexivity. Qed.")
-        out.append("")
+        tie.append(f"Lemma C10_tie_{key} : gen_{key} = {target}.")
+        tie.append("Proof. reflexivity. Qed.")
         info[key] = dict(variant=variant, lines=e.lines, file=e.sp["file"], cls=e.cls, locked=e.locked,
                          stop_joins=e.stop_joins, guard_reads=e.guard_reads, ops=e.ops)
     cnt = translate_counter((sources or {}).get("job_array"))
-    out.insert(3, "From RV Require Import Model.ArrCounter.")
     out.append(f"Definition gen_counter : acfg := {{| counter_locked := {'true' if cnt['locked'] else 'false'} |}}.")
-    out.append(f"Lemma C10_tie_counter : gen_counter = {'arr_locked' if cnt['locked'] else 'arr_unlocked'}.")
-    out.append("Proof. reflexivity. Qed.")
-    out.append("")
+    tie.append(f"Lemma C10_tie_counter : gen_counter = {'arr_locked' if cnt['locked'] else 'arr_unlocked'}.")
+    tie.append("Proof. reflexivity. Qed.")
     info["_counter"] = cnt
     life = translate_lifecycle((sources or {}).get("job_array"))
-    out.insert(4, "From RV Require Import Model.ArrLife.")
     out.append(f"Definition gen_life : clear_variant := {life}.")
-    out.append(f"Lemma C10_tie_life : gen_life = {life}.")
-    out.append("Proof. reflexivity. Qed.")
-    out.append("")
+    tie.append(f"Lemma C10_tie_life : gen_life = {life}.")
+    tie.append("Proof. reflexivity. Qed.")
     info["_life"] = life
+    # Glue _start: are the thread-alive checks reached when is_running is already true?
+    gops = info["aws_glue"]["ops"]
+    gv = None
+    if not info["aws_glue"]["locked"]:
+        gv = "AlwaysCheck" if gops == GLUE_ALWAYS else "EarlyReturn" if gops == GLUE_EARLY else None
+    if gv:
+        out.append(f"Definition gen_glue_start : start_variant := {gv}.")
+        tie.append(f"Lemma C10_tie_glue_start : gen_glue_start = {gv}.")
+        tie.append("Proof. reflexivity. Qed.")
+    info["_glue_start"] = gv
+    out.append("")
+    tie.append("")
+    info["_tie_text"] = "\n".join(tie)
     return "\n".join(out), info
 
 
